@@ -149,6 +149,9 @@ class SidecarValidator:
             error_handler.push_error_context(ErrorContext.SIDECAR_COLUMN_NAME, column_name)
             matches = []
             for key_name, hed_string in hed_strings.items():
+                if not isinstance(hed_string, str):
+                    # A null entry arrives as NaN; wrong-typed entries are reported by validate_structure.
+                    continue
                 new_issues = []
                 if len(hed_strings) > 1:
                     error_handler.push_error_context(ErrorContext.SIDECAR_KEY_NAME, key_name)
